@@ -15,10 +15,11 @@ RULE = ('scenarios = reachable states of MC_C01 (all connected networks over <= 
 
 def models(tier, seed):
     if tier == 'quick':
-        return [dict(module='MC_C01.tla', cfg='MC_C01_quick.cfg')]
+        return [dict(module='MC_C01.tla', cfg='MC_C01_quick.cfg'),
+                dict(module='MC_C01.tla', cfg='MC_C01_loads.cfg')]       # loads given by a reference current (and by a reference voltage) among sources
     # thorough: the exhaustive model of the quick tier (known to stay within exact 32-bit arithmetic) plus random walks over larger networks
     # (5 real branches on 4 nodes; 4 complex branches); a walk that leaves the arithmetic range ends and is restarted with a fresh seed
-    return [dict(module='MC_C01.tla', cfg='MC_C01_quick.cfg'),
+    return [dict(module='MC_C01.tla', cfg='MC_C01_quick.cfg'), dict(module='MC_C01.tla', cfg='MC_C01_loads.cfg'),
             dict(module='MC_C01.tla', cfg='MC_C01_sim.cfg', simulate='num=100000000', depth=8, seed=seed, max_cases=150000, shards=12),
             dict(module='MC_C01.tla', cfg='MC_C01_simc.cfg', simulate='num=100000000', depth=6, seed=seed + 1, max_cases=60000, shards=12)]
 
